@@ -132,6 +132,12 @@ def run(ctx):
         if st is None:
             continue
         fids = attribute(ctx, hm, doc)
+        # a document usually falsifies several wf clauses at once; clauses that are no listed finding of THIS property
+        # (e.g. clause 18, which changes a value's kind but is stable under re-canonicalisation) explain nothing here:
+        # when a listed class applies the failure is attributed to the listed ones only, otherwise it stays unexplained
+        listed = [f for f in fids if (PFX + f) in ctx.known]
+        if listed:
+            fids = listed
         case = {"input": x, "canonical": c1, "kind": kind}
         if fids:
             for f in fids:
